@@ -251,7 +251,14 @@ class HTTP1Connection(httputil.HTTPConnection):
                         )
                     # TODO: client delegates will get headers_received twice
                     # in the case of a 100-continue.  Document or change?
-                    await self._read_message(delegate)
+                    #
+                    # The final response is read (and reported to the
+                    # delegate) by the recursive call; there is nothing
+                    # left to do for the interim one. Falling through
+                    # would read a "body" for it and finish the delegate
+                    # a second time with the interim status.
+                    need_delegate_close = False
+                    return await self._read_message(delegate)
             else:
                 if headers.get("Expect") == "100-continue" and not self._write_finished:
                     self.stream.write(b"HTTP/1.1 100 (Continue)\r\n\r\n")
